@@ -6,7 +6,11 @@ statement grammar Spec/RefStmt.v (`mstmt`), with the parenthesisation choices ac
 """
 import c03gen as G
 
-CL = dict(items=0, on=1, where=2, group=3, having=4, order=5, values=6, set=7, returning=8, don=9, cset=10, cwhere=11)
+CL = dict(items=0, on=1, where=2, group=3, having=4, order=5, values=6, set=7, returning=8, don=9, cset=10, cwhere=11,
+          mon=12, mcond=13, mset=14, mvals=15)
+LOCKS = {"UPDATE": "LkUpdate", "NO KEY UPDATE": "LkNoKeyUpdate", "SHARE": "LkShare", "KEY SHARE": "LkKeyShare"}
+WAITS = {"": "WtNone", "NOWAIT": "WtNowait", "SKIP LOCKED": "WtSkipLocked"}
+KINDS = {"MATCHED": "KMatched", "NOT_MATCHED": "KNotMatched", "NOT_MATCHED_BY_SOURCE": "KNotMatchedBySource"}
 
 
 class CoreStmtGen(G.StmtGen):
@@ -19,9 +23,25 @@ class CoreStmtGen(G.StmtGen):
 
     def select(self, depth=0, simple=False, scalar=False):
         s = super().select(depth, simple, scalar)
-        s["all_kw"], s["for_"], s["offset_rows"] = False, None, False
+        s["all_kw"], s["offset_rows"] = False, False
         s["cols"] = [((e, None, False) if e[0] == "qstar" else (e, al, askw)) for e, al, askw in s["cols"]]
-        s["group_by"] = [g for g in s["group_by"] if g[0] in ("expr", "rollup", "cube")]
+        gb = []
+        for g in s["group_by"]:
+            if g[0] == "sets":
+                # a set written without parentheses is a column reference (gset_ok); a one-column set is written either way
+                sets = []
+                for st in g[1]:
+                    if isinstance(st, tuple):
+                        if st[1][0] not in ("ident", "qident"): st = [st[1]]
+                    elif len(st) == 1 and st[0][0] in ("ident", "qident") and self.r.random() < 0.5:
+                        st = ("bare", st[0])
+                    sets.append(st)
+                g = ("sets", sets)
+            gb.append(g)
+        s["group_by"] = gb
+        if depth == 0 and not simple and not scalar and s["for_"] is None and self.r.random() < 0.1:
+            s["for_"] = dict(lock=self.r.choice(list(LOCKS)), tables=[self.r.choice(G.TABS) for _ in range(self.r.randrange(0, 3))],
+                             wait=self.r.choice(list(WAITS)))
         return s
 
     def returning(self):
@@ -37,10 +57,11 @@ class CoreStmtGen(G.StmtGen):
 
     def statement(self):
         k = self.r.random()
-        if k < 0.6: return self.query()
-        if k < 0.75: return self.insert()
-        if k < 0.88: return self.update()
-        return self.delete()
+        if k < 0.55: return self.query()
+        if k < 0.68: return self.insert()
+        if k < 0.79: return self.update()
+        if k < 0.88: return self.delete()
+        return self.merge()          # G.StmtGen.merge: core expressions, documented kind x action pairs only
 
 
 class LoggingRenderer(G.StmtRenderer):
@@ -85,7 +106,7 @@ class Conv:
 
     def select(self, s, k):
         sh = 16 * k
-        need(not s["all_kw"] and not s["for_"] and not s["offset_rows"] and not s.get("rollup_mysql"))
+        need(not s["all_kw"] and not s["offset_rows"] and not s.get("rollup_mysql"))
         need(s["distinct"] or not s["distinct_on"])
         don = [self.E(e, CL["don"] + sh, i) for i, e in enumerate(s["distinct_on"])]
         items = []
@@ -118,6 +139,20 @@ class Conv:
         for g in s["group_by"]:
             if g[0] == "expr":
                 gb.append("(GrExpr %s)" % self.E(g[1], CL["group"] + sh, gi)); gi += 1
+            elif g[0] == "sets":
+                # the expressions of all sets are numbered with the other grouping expressions, in the order they are written
+                need(g[1])
+                sets = []
+                for st in g[1]:
+                    if isinstance(st, tuple):
+                        need(st[0] == "bare" and st[1][0] in ("ident", "qident"))
+                        sets.append("(GsBare %s)" % self.E(st[1], CL["group"] + sh, gi)); gi += 1
+                    else:
+                        xs = []
+                        for x in st:
+                            xs.append(self.E(x, CL["group"] + sh, gi)); gi += 1
+                        sets.append("(GsList [%s])" % "; ".join(xs))
+                gb.append("(GrSets [%s])" % "; ".join(sets))
             else:
                 need(g[0] in ("rollup", "cube") and g[1])
                 xs = []
@@ -136,9 +171,51 @@ class Conv:
             fe = "(Some (MkFetch %s %s %s %s %s))" % (G.coq_bool(f["type"] == "NEXT"), G.coq_str(str(f["value"])), G.coq_bool(f["percent"]), rows, G.coq_bool(f["ties"]))
         else:
             fe = "None"
-        return "(MkSelect %s [%s] [%s] [%s] [%s] %s [%s] %s [%s] %s %s %s)" % (
+        fo = s["for_"]
+        if fo:
+            need(fo["lock"] in LOCKS and fo["wait"] in WAITS)
+            fr = "(Some (MkFor %s [%s] %s))" % (LOCKS[fo["lock"]], "; ".join(G.coq_str(t) for t in fo["tables"]), WAITS[fo["wait"]])
+        else:
+            fr = "None"
+        return "(MkSelect %s [%s] [%s] [%s] [%s] %s [%s] %s [%s] %s %s %s %s)" % (
             G.coq_bool(s["distinct"]), "; ".join(don), "; ".join(items), "; ".join(frm), "; ".join(joins), wh, "; ".join(gb), hv, "; ".join(ob),
-            num(s["limit"]), num(s["offset"]), fe)
+            num(s["limit"]), num(s["offset"]), fe, fr)
+
+    def merge(self, s, sh):
+        """MERGE: ON condition = (cl_mon, 0), AND condition of the k-th WHEN = (cl_mcond, k), SET values / INSERT values numbered through
+        the statement; visited in the order the renderer writes them (ON, then per WHEN clause: condition, action)"""
+        al = lambda a, askw: self.alias(a, askw)
+        on = self.E(s["on"], CL["mon"] + sh, 0)
+        whens, ns, nv = [], 0, 0
+        need(s["whens"])
+        for k, w in enumerate(s["whens"]):
+            need(w["type"] in KINDS)
+            cond = "None" if w["cond"] is None else "(Some %s)" % self.E(w["cond"], CL["mcond"] + sh, k)
+            a = w["action"]
+            if a["type"] == "DELETE":
+                act = "MaDelete"
+            elif a["type"] == "UPDATE":
+                sets = []
+                for n, e in a["sets"]:
+                    parts = n.split(".")
+                    need(len(parts) in (1, 2))
+                    c = "(None, %s)" % G.coq_str(parts[0]) if len(parts) == 1 else "(Some %s, %s)" % (G.coq_str(parts[0]), G.coq_str(parts[1]))
+                    sets.append("(%s, %s)" % (c, self.E(e, CL["mset"] + sh, ns))); ns += 1
+                act = "(MaUpdate [%s])" % "; ".join(sets)
+            else:
+                need(a["type"] == "INSERT")
+                cols = "[%s]" % "; ".join(G.coq_str(c) for c in a["cols"])
+                if a["default"]:
+                    need(not a["values"])
+                    act = "(MaInsert %s None)" % cols
+                else:
+                    vs = []
+                    for e in a["values"]:
+                        vs.append(self.E(e, CL["mvals"] + sh, nv)); nv += 1
+                    act = "(MaInsert %s (Some [%s]))" % (cols, "; ".join(vs))
+            whens.append("(MkWhen %s %s %s)" % (KINDS[w["type"]], cond, act))
+        return "(MkMerge %s %s %s %s %s %s [%s])" % (G.coq_bool(s.get("into", True)), self.path(s["target"]), al(s["talias"], s["tas"]),
+                                                    self.path(s["source"]), al(s["salias"], s["sas"]), on, "; ".join(whens))
 
     def query(self, q, base):
         """-> (term, number of selects)"""
@@ -207,6 +284,9 @@ class Conv:
             wh = "None" if s["where"] is None else "(Some %s)" % self.E(s["where"], CL["where"] + sh, 0)
             ret = [self.E(e, CL["returning"] + sh, i) for i, e in enumerate(s["returning"])]
             body = "(BDelete %s %s [%s])" % (self.path(s["table"]), wh, "; ".join(ret))
+        elif k == "merge":
+            need(not w)                  # the parser has no WITH in front of MERGE (stmt_ok)
+            body = "(BMerge %s)" % self.merge(s, sh)
         else:
             raise Unsupported()
         return "(MkStmt %s %s)" % (wt, body)
@@ -230,13 +310,200 @@ def convert(s, log):
     return term, "(srho_of [%s])" % "; ".join(ent)
 
 
+# ------------------------------------------------------------------------------------------------
+# targeted reference statements for MERGE, GROUP BY GROUPING SETS and the FOR clause (dicts of lib/c03gen.py)
+
+def _tab(name, alias="", as_kw=False):
+    return dict(name=name, sub=None, alias=alias, as_kw=as_kw, lateral=False)
+
+
+def _sel(**kw):
+    s = dict(kind="select", distinct=False, distinct_on=[], all_kw=False, cols=[(("ident", False, "a"), None, False)], from_=[_tab("t")], joins=[],
+             where=None, group_by=[], rollup_mysql=None, having=None, order_by=[], limit=None, offset=None, offset_rows=False, fetch=None,
+             for_=None, with_=None)
+    s.update(kw)
+    return s
+
+
+def _col(r):
+    return ("ident", False, r.choice(G.IDENTS)) if r.random() < 0.7 else ("qident", r.choice(G.TABS), r.choice(G.IDENTS))
+
+
+MERGE_PAIRS = [("MATCHED", "UPDATE"), ("MATCHED", "DELETE"), ("NOT_MATCHED", "INSERT"), ("NOT_MATCHED_BY_SOURCE", "UPDATE"),
+               ("NOT_MATCHED_BY_SOURCE", "DELETE")]            # the documented kind x action table
+UPDATE_VARIANTS = ["u", "q", "uq", "qu", "uu", "qq"]           # SET columns: u = column, q = qualifier.column
+INSERT_VARIANTS = [(True, False), (False, False), (True, True), (False, True)]      # (column list?, DEFAULT VALUES?)
+MERGE_ALIASES = [(ta, tas, sa, sas, into) for ta, tas in (("", False), ("x", True), ("x", False)) for sa, sas in (("", False), ("y", True), ("y", False))
+                 for into in (True, False)]
+
+
+def merge_variants(action):
+    return UPDATE_VARIANTS if action == "UPDATE" else INSERT_VARIANTS if action == "INSERT" else [None]
+
+
+def merge_when(r, kind, action, cond, variant, qual):
+    w = dict(type=kind, cond=G.rand_expr(r, r.choice([1, 2, 3])) if cond else None)
+    if action == "DELETE":
+        w["action"] = dict(type="DELETE")
+    elif action == "UPDATE":
+        w["action"] = dict(type="UPDATE", sets=[((qual + "." if v == "q" else "") + r.choice(G.IDENTS), G.rand_expr(r, r.choice([1, 1, 3]))) for v in variant])
+    else:
+        cols, default = variant
+        n = r.randrange(1, 4)
+        w["action"] = dict(type="INSERT", cols=[r.choice(G.IDENTS) for _ in range(n)] if cols else [],
+                           values=[] if default else [G.rand_expr(r, r.choice([1, 1, 3])) for _ in range(n)], default=default)
+    return w
+
+
+def merge_family(r, tier):
+    """every kind x action pair of the documented table, with / without AND condition, every INSERT / UPDATE SET shape; every ordered pair
+    of such clauses in one statement; every combination of target alias x source alias (none | AS x | x) x INTO (written | not)"""
+    out = []
+    def stmt(i, whens):
+        ta, tas, sa, sas, into = MERGE_ALIASES[i % len(MERGE_ALIASES)]
+        return dict(kind="merge", target=r.choice(["t", "t", "s.t", "db.s.orders"]), talias=ta, tas=tas, source=r.choice(["u", "u", "public.u"]),
+                    salias=sa, sas=sas, on=G.rand_expr(r, r.choice([1, 3, 4])), whens=whens, into=into)
+    for rnd in range(1 if tier == "quick" else 10):
+        i = rnd * 7
+        for kind, action in MERGE_PAIRS:
+            for cond in (False, True):
+                for v in merge_variants(action):
+                    qual = MERGE_ALIASES[i % len(MERGE_ALIASES)][0] or "t"
+                    out.append(stmt(i, [merge_when(r, kind, action, cond, v, qual)])); i += 1
+        for k1, a1 in MERGE_PAIRS:
+            for k2, a2 in MERGE_PAIRS:
+                qual = MERGE_ALIASES[i % len(MERGE_ALIASES)][0] or "t"
+                out.append(stmt(i, [merge_when(r, k1, a1, r.random() < 0.5, r.choice(merge_variants(a1)), qual),
+                                    merge_when(r, k2, a2, r.random() < 0.5, r.choice(merge_variants(a2)), qual)])); i += 1
+        # the whole table in one statement, in order and reversed
+        for order in (MERGE_PAIRS, MERGE_PAIRS[::-1]):
+            out.append(stmt(i, [merge_when(r, k, a, r.random() < 0.5, r.choice(merge_variants(a)), "t") for k, a in order])); i += 1
+    return out
+
+
+GSET_SHAPES = ["empty", "one", "two", "three", "bare"]
+GSET_CONTEXTS = [([], []), (["expr"], []), ([], ["expr"]), (["rollup"], ["cube"]), (["cube"], ["rollup"]), (["sets"], []), ([], ["sets"]),
+                 (["expr", "rollup"], ["expr"]), (["sets"], ["sets"])]
+
+
+def _gexpr(r):
+    return _col(r) if r.random() < 0.6 else G.rand_expr(r, r.choice([1, 2, 3]))
+
+
+def _gset(r, shape):
+    if shape == "bare": return ("bare", _col(r))
+    return [_gexpr(r) for _ in range(GSET_SHAPES.index(shape))]
+
+
+def _gitem(r, kind):
+    if kind == "expr": return ("expr", _gexpr(r))
+    if kind in ("rollup", "cube"): return (kind, [_gexpr(r) for _ in range(r.randrange(1, 3))])
+    return ("sets", [_gset(r, r.choice(GSET_SHAPES)) for _ in range(r.randrange(1, 3))])
+
+
+def gsets_family(r, tier):
+    """GROUP BY GROUPING SETS with 1-3 sets, each empty / one / two / three expressions / a bare column, alone and between plain, ROLLUP,
+    CUBE and other GROUPING SETS items; hand-picked: a later set that is not a prefix of / longer than / shorter than an earlier one"""
+    import itertools
+    out = []
+    I = lambda n: ("ident", False, n)
+    a, b, c, d = I("a"), I("b"), I("c"), I("d")
+    hand = [[[a, b], [a, c]], [[a, b], [b]], [[a], [a, b, c]], [[a, b, c], [a]], [[a, b], [c, d], [a]], [[a, b], ("bare", b), [b, a]],
+            [("bare", a), [a, b], ("bare", c)], [[], [a], []], [[a, b, c], [c, b, a], [b]], [("bare", ("qident", "t", "a")), [("qident", "t", "a"), b]],
+            [[("bin", "*", ("bin", "+", a, b), c)], [a]], [[a, b], [a, b]]]
+    shapes = [list(x) for n in (1, 2) for x in itertools.product(GSET_SHAPES, repeat=n)]
+    three = [list(x) for x in itertools.product(GSET_SHAPES, repeat=3)]
+    if tier == "quick":
+        shapes += r.sample(three, 30)
+        rounds = 1
+    else:
+        shapes += three
+        rounds = 4
+    i = 0
+    def wrap(sets):
+        nonlocal i
+        before, after = GSET_CONTEXTS[i % len(GSET_CONTEXTS)]
+        gb = [_gitem(r, k) for k in before] + [("sets", sets)] + [_gitem(r, k) for k in after]
+        s = _sel(group_by=gb)
+        if i % 3 == 1: s["having"] = G.rand_expr(r, 3)
+        if i % 4 == 2: s["order_by"] = [(_col(r), r.choice([None, "ASC", "DESC"]), None)]
+        if i % 5 == 3: s["for_"] = dict(lock=r.choice(list(LOCKS)), tables=[], wait=r.choice(list(WAITS)))
+        if i % 7 == 4: s["where"] = G.rand_expr(r, 3)
+        i += 1
+        return s
+    for rnd in range(rounds):
+        for sets in hand:
+            out.append(wrap([st if isinstance(st, tuple) else list(st) for st in sets]))
+        for sh in shapes:
+            out.append(wrap([_gset(r, x) for x in sh]))
+    return out
+
+
+FOR_CONTEXTS = ["from", "where", "order", "limit", "fetch"]
+
+
+def _for_ctx(r, ctx):
+    s = _sel(cols=[(_col(r), None, False)], from_=[_tab(r.choice(G.TABS), r.choice(["", "", "x"]), r.random() < 0.5)])
+    if ctx == "where": s["where"] = G.rand_expr(r, r.choice([1, 3, 5]))
+    elif ctx == "order": s["order_by"] = [(_col(r), r.choice([None, "ASC", "DESC"]), r.choice([None, True, False])) for _ in range(r.randrange(1, 3))]
+    elif ctx == "limit":
+        s["limit"] = r.randrange(0, 100)
+        if r.random() < 0.5: s["offset"] = r.randrange(0, 50)
+    elif ctx == "fetch":
+        s["fetch"] = dict(type=r.choice(["FIRST", "NEXT"]), value=r.randrange(1, 50), percent=r.random() < 0.3, rows=r.choice(["ROWS", "ROW", ""]),
+                          ties=r.random() < 0.4)
+        if r.random() < 0.3: s["offset"] = r.randrange(1, 50)
+    elif ctx == "nofrom": s["from_"], s["cols"] = [], [(("num", "1"), None, False)]
+    elif ctx == "offset": s["offset"] = r.randrange(1, 50)
+    elif ctx == "group": s["group_by"], s["having"] = [("expr", _col(r))], G.rand_expr(r, 3)
+    elif ctx == "join": s["joins"] = [("LEFT JOIN", _tab("u"), ("on", G.rand_expr(r, 3)))]
+    return s
+
+
+def for_family(r, tier):
+    """FOR {UPDATE | NO KEY UPDATE | SHARE | KEY SHARE} [OF 1-2 tables] [NOWAIT | SKIP LOCKED]: all 36 combinations, after FROM / WHERE /
+    ORDER BY / LIMIT / FETCH (quick: rotating; thorough: all), plus a SELECT without FROM, after OFFSET / HAVING / a join, in a CTE body,
+    in the query of an INSERT"""
+    out = []
+    combos = [(l, n, w) for l in LOCKS for n in (0, 1, 2) for w in WAITS]
+    def fc(l, n, w):
+        return dict(lock=l, tables=[r.choice(G.TABS) for _ in range(n)], wait=w)
+    for i, (l, n, w) in enumerate(combos):
+        for j in range(1 if tier == "quick" else len(FOR_CONTEXTS)):
+            s = _for_ctx(r, FOR_CONTEXTS[(i + j) % len(FOR_CONTEXTS)])
+            s["for_"] = fc(l, n, w)
+            out.append(s)
+    extras = ["nofrom", "offset", "group", "join", "cte", "cte_main", "insert"]
+    for rnd in range(1 if tier == "quick" else 6):
+        for k, ctx in enumerate(extras):
+            l, n, w = combos[(rnd * len(extras) + k) * 5 % len(combos)]
+            if ctx in ("cte", "cte_main"):
+                body = _for_ctx(r, "where"); body["for_"] = fc(l, n, w)
+                s = _for_ctx(r, "from")
+                if ctx == "cte_main": s["for_"] = fc(*r.choice(combos))
+                s["with_"] = dict(recursive=False, ctes=[dict(name="cte1", cols=[], stmt=body, mat=None)])
+            elif ctx == "insert":
+                q = _for_ctx(r, "where"); q["for_"] = fc(l, n, w)
+                s = dict(kind="insert", table="t", cols=["a"], rows=None, query=q, conflict=None, returning=[_col(r)] if rnd % 2 else [], with_=None)
+            else:
+                s = _for_ctx(r, ctx); s["for_"] = fc(l, n, w)
+            out.append(s)
+    return out
+
+
+FAMILIES = [("merge", merge_family), ("grouping_sets", gsets_family), ("for", for_family)]
+
+
 def corrupt_text(r, words):
     return G.corrupt(r, words)
 
 
 STMT_JUNK = ["SELECT", "FROM", "WHERE", "GROUP", "BY", "HAVING", "ORDER", "LIMIT", "OFFSET", "UNION", "ALL", "JOIN", "LEFT", "ON", "USING",
              "AS", "WITH", "INSERT", "INTO", "VALUES", "UPDATE", "SET", "DELETE", "RETURNING", "DISTINCT", ",", "(", ")", "*", "t", "a", "1",
-             "NULLS", "FIRST", "ASC", "DESC", "NATURAL", "CROSS", "OUTER", ";", ".", "=", "RECURSIVE", "MATERIALIZED", "NOT", "x y"]
+             "NULLS", "FIRST", "ASC", "DESC", "NATURAL", "CROSS", "OUTER", ";", ".", "=", "RECURSIVE", "MATERIALIZED", "NOT", "x y",
+             # MERGE, GROUPING SETS, the FOR clause
+             "MERGE", "MATCHED", "WHEN", "THEN", "AND", "SOURCE", "TARGET", "DEFAULT", "INSERT", "DELETE", "GROUPING SETS", "GROUPING", "SETS",
+             "ROLLUP", "CUBE", "FOR", "SHARE", "KEY", "NO", "OF", "NOWAIT", "SKIP", "LOCKED", "FETCH", "( )"]
 
 
 def corrupt_stmt(r, words):
@@ -291,5 +558,68 @@ FIXED_TEXTS = [
     "SELECT a FROM t FETCH FIRST 3 ROWS ONLY", "SELECT a FROM t OFFSET 2 FETCH NEXT 10 PERCENT ROW WITH TIES", "SELECT a FROM t FETCH FIRST 3", "SELECT a FROM t FETCH 3 ROWS ONLY",
     "SELECT a FROM t FETCH NEXT 3 WITH", "SELECT a FROM t FETCH FIRST x ROWS ONLY", "SELECT a FROM t FETCH FIRST 3 ROWS ONLY FOR UPDATE", "SELECT a FROM t FETCH FIRST 1 ROW ONLY UNION SELECT b FROM u",
     "SELECT a FROM t GROUP BY 'GROUPING SETS' , b", 'SELECT a FROM t GROUP BY "GROUPING SETS"', "SELECT a FROM t GROUP BY GROUPING SETS ( ( a ) )",
+    # MERGE (parseMergeStatement / parseMergeWhenClause / parseMergeAction): every error branch, optional words, quirks
+    "MERGE INTO t USING u ON a", "MERGE t USING u ON a WHEN NOT MATCHED THEN DELETE", "MERGE INTO t USING u ON a WHEN MATCHED THEN INSERT VALUES ( 1 )",
+    "MERGE INTO t USING u ON a WHEN NOT MATCHED BY SOURCE THEN INSERT VALUES ( 1 )", "MERGE INTO t USING u ON a WHEN NOT MATCHED THEN UPDATE SET a = 1",
+    "MERGE INTO t USING u ON a WHEN NOT MATCHED BY TARGET THEN INSERT VALUES ( 1 )", "MERGE INTO t USING u ON a WHEN NOT MATCHED BY THEN DELETE",
+    "MERGE INTO t USING u ON a WHEN MATCHED AND THEN DELETE", "MERGE INTO t USING u ON a WHEN MATCHED AND b > 1 DELETE", "MERGE INTO t USING u ON a WHEN NOT THEN DELETE",
+    "MERGE INTO t USING u ON a WHEN THEN DELETE", "MERGE INTO t USING u ON a WHEN MATCHED THEN", "MERGE INTO t USING u ON a WHEN MATCHED THEN SELECT 1",
+    "MERGE INTO t USING u ON a WHEN NOT MATCHED THEN INSERT ( ) VALUES ( 1 )", "MERGE INTO t USING u ON a WHEN NOT MATCHED THEN INSERT VALUES ( )",
+    "MERGE INTO t USING u ON a WHEN NOT MATCHED THEN INSERT DEFAULT", "MERGE INTO t USING u ON a WHEN NOT MATCHED THEN INSERT ( a , b VALUES ( 1 , 2 )",
+    "MERGE INTO t USING u ON a WHEN NOT MATCHED THEN INSERT VALUES 1", "MERGE INTO t USING u ON a WHEN NOT MATCHED THEN INSERT VALUES ( 1 , 2",
+    "MERGE INTO t USING u ON a WHEN NOT MATCHED THEN INSERT ( a ) DEFAULT VALUES WHEN MATCHED THEN DELETE", "MERGE INTO t USING u ON a WHEN NOT MATCHED THEN INSERT",
+    "MERGE INTO t USING u ON a WHEN NOT MATCHED THEN INSERT VALUES ( 1 ) , ( 2 )", "MERGE INTO t USING u ON a WHEN NOT MATCHED THEN INSERT ( name , value ) VALUES ( 1 , 2 )",
+    "MERGE INTO t USING u ON a WHEN MATCHED THEN UPDATE SET a . b . c = 1", "MERGE INTO t USING u ON a WHEN MATCHED THEN UPDATE a = 1", "MERGE INTO t USING u ON a WHEN MATCHED THEN UPDATE SET",
+    "MERGE INTO t USING u ON a WHEN MATCHED THEN UPDATE SET a 1", "MERGE INTO t USING u ON a WHEN MATCHED THEN UPDATE SET a = 1 ,", "MERGE INTO t USING u ON a WHEN MATCHED THEN UPDATE SET a . = 1",
+    "MERGE INTO t USING u ON a WHEN MATCHED THEN UPDATE SET target . source = matched , name = value , t . status = 1", "MERGE INTO t USING u ON a WHEN MATCHED THEN UPDATE SET a = 1 WHERE b",
+    "MERGE INTO t AS USING u ON a WHEN MATCHED THEN DELETE", "MERGE INTO t x y USING u ON a WHEN MATCHED THEN DELETE", "MERGE INTO target source USING matched ON a WHEN MATCHED THEN DELETE",
+    "MERGE INTO t AS target USING u AS source ON a WHEN matched THEN DELETE", "MERGE INTO t USING u AS ON a WHEN MATCHED THEN DELETE", "MERGE INTO t USING u x y ON a WHEN MATCHED THEN DELETE",
+    "MERGE INTO t name USING u value ON a WHEN NOT MATCHED BY source THEN DELETE", "MERGE INTO USING u ON a WHEN MATCHED THEN DELETE", "MERGE INTO t USING ON a WHEN MATCHED THEN DELETE",
+    "MERGE INTO t u ON a WHEN MATCHED THEN DELETE", "MERGE INTO t USING u WHEN MATCHED THEN DELETE", "MERGE INTO t USING u ON WHEN MATCHED THEN DELETE", "MERGE INTO INTO t USING u ON a WHEN MATCHED THEN DELETE",
+    "MERGE INTO s . t . v x USING a . b AS y ON x . id = y . id WHEN MATCHED THEN DELETE", "MERGE INTO t . USING u ON a WHEN MATCHED THEN DELETE", "MERGE INTO t USING ( SELECT 1 ) x ON a WHEN MATCHED THEN DELETE",
+    "merge into t using u on a when not matched by source and b then update set c = 1 when not matched then insert default values", "MERGE",
+    "WITH c AS ( SELECT 1 ) MERGE INTO t USING c ON a WHEN MATCHED THEN DELETE", "MERGE INTO t USING u ON a WHEN MATCHED THEN DELETE WHEN", "MERGE INTO t USING u ON a WHEN MATCHED THEN DELETE x",
+    "MERGE INTO t USING u ON a WHEN MATCHED THEN DELETE RETURNING a", "MERGE INTO t USING u ON a WHEN MATCHED THEN DELETE ; SELECT 1", "MERGE INTO t USING u ON a WHEN MATCHED THEN DELETE ) WHEN MATCHED THEN DELETE",
+    "MERGE INTO t USING u ON a = CASE WHEN b THEN 1 END WHEN MATCHED THEN DELETE", "MERGE INTO t USING u ON a WHEN MATCHED AND b AND c OR d THEN DELETE WHEN NOT MATCHED THEN INSERT ( a ) VALUES ( b , c + 1 )",
+    # the FOR clause (parseForClause): words compared by their text, case-insensitively
+    "SELECT a FROM t FOR", "SELECT a FROM t FOR UPDATE OF", "SELECT a FROM t FOR NO UPDATE", "SELECT a FROM t FOR NO KEY", "SELECT a FROM t FOR NO KEY SHARE", "SELECT a FROM t FOR KEY UPDATE",
+    "SELECT a FROM t FOR KEY", "SELECT a FROM t FOR UPDATE SKIP", "SELECT a FROM t FOR UPDATE NOWAIT SKIP LOCKED", "SELECT a FROM t FOR UPDATE SKIP LOCKED NOWAIT", "SELECT a FROM t FOR UPDATE OF t , SKIP LOCKED",
+    "SELECT a FROM t FOR UPDATE OF t , u , v NOWAIT", "SELECT a FROM t FOR UPDATE OF s . t", "SELECT a FROM t FOR UPDATE OF target", "SELECT a FROM t FOR UPDATE OF t u", "select a from t for update of t nowait",
+    "SELECT a FROM t for No Key Update Of t Skip Locked", "SELECT a FROM t FOR key share", "SELECT a FROM t FOR UPDATE FOR SHARE", "SELECT 1 FOR UPDATE", "SELECT 1 FOR SHARE OF t", "SELECT a FROM t FOR UPDATE LIMIT 1",
+    "SELECT a FROM t FOR UPDATE ORDER BY a", "SELECT a FROM t LIMIT 1 OFFSET 2 FOR SHARE NOWAIT", "SELECT a FROM t WHERE FOR UPDATE", "SELECT a FROM t WHERE b FOR READ ONLY", "SELECT a FROM t FOR \"UPDATE\"", "SELECT a FROM t FOR 'UPDATE'",
+    "SELECT a FROM t FOR UPDATE OF \"t\" NOWAIT", "SELECT a FROM t FOR UPDATE \"NOWAIT\"", "WITH c AS ( SELECT a FROM t FOR UPDATE ) SELECT a FROM c FOR SHARE", "SELECT a FROM t FOR UPDATE UNION SELECT b FROM u",
+    "SELECT a FROM t UNION SELECT b FROM u FOR UPDATE", "INSERT INTO t SELECT a FROM u FOR UPDATE RETURNING a", "SELECT a FROM t FOR UPDATE ;", "SELECT a FROM t FOR UPDATE )", "SELECT a FROM t FOR UPDATE NOWAIT x",
+    "SELECT a FROM t FOR UPDATE OF", "SELECT a FROM t FOR SHARE OF 1", "SELECT a no FROM t FOR no key update", "SELECT a FROM t FOR UPDATE SKIP x",
+    # GROUP BY GROUPING SETS (parseGroupingSets)
+    "SELECT a FROM t GROUP BY GROUPING SETS ( )", "SELECT a FROM t GROUP BY GROUPING SETS ( ( ) )", "SELECT a FROM t GROUP BY GROUPING SETS ( a , ( b , c ) , ( ) )", "SELECT a FROM t GROUP BY GROUPING SETS ( ( a + b ) * c )",
+    "SELECT a FROM t GROUP BY GROUPING SETS ( ( ( a ) ) )", "SELECT a FROM t GROUP BY GROUPING SETS ( ( a , b )", "SELECT a FROM t GROUP BY GROUPING SETS a", "SELECT a FROM t GROUP BY GROUPING SETS ( a b )",
+    "SELECT a FROM t GROUP BY grouping sets ( a )", "SELECT a FROM t GROUP BY Grouping Sets ( ( a ) , b )", "SELECT a FROM t GROUP BY a , GROUPING SETS ( ( a ) ) , ROLLUP ( b )", "SELECT a FROM t GROUP BY GROUPING SETS ( ( a b ) )",
+    "SELECT a FROM t GROUP BY GROUPING SETS ( ( a , ) )", "SELECT a FROM t GROUP BY GROUPING SETS ( a , )", "SELECT a FROM t GROUP BY GROUPING SETS ( , a )", "SELECT a FROM t GROUP BY GROUPING SETS ( a ) b",
+    "SELECT a FROM t GROUP BY GROUPING SETS ( a + 1 , b * ( c + d ) , ( e ) + 1 )", "SELECT a FROM t GROUP BY GROUPING SETS ( ( a ) , ( a , b ) , ( a , b , c ) , ( b ) , a ) HAVING a ORDER BY b",
+    "SELECT a FROM t GROUP BY GROUPING SETS ( ROLLUP ( a ) , CUBE ( b ) )", "SELECT a FROM t GROUP BY GROUPING SETS ( GROUPING SETS ( a ) )", "SELECT a FROM t GROUP BY GROUPING", "SELECT a FROM t GROUP BY GROUPING ( a )",
+    "SELECT a FROM t GROUP BY SETS ( a )", "SELECT a FROM t GROUP BY GROUPING SETS", "SELECT a FROM t GROUP BY GROUPING SETS (", "SELECT a FROM t GROUP BY GROUPING SETS ( (", "SELECT a FROM t GROUP BY GROUPING SETS ( a ) , GROUPING SETS ( ( ) , ( b ) ) FOR UPDATE",
+    "SELECT a FROM t GROUP BY GROUPING SETS ( ( a ) ) WITH ROLLUP", "SELECT a FROM t GROUP BY ROLLUP ( GROUPING SETS ( a ) )", "SELECT a FROM t GROUP BY GROUPING SETS ( * )",
+    # words the three parsers compare by their text: a string literal / quoted identifier spelled like the keyword is taken for it (mirrored by the model)
+    "MERGE INTO t USING u ON a WHEN 'MATCHED' THEN DELETE", 'MERGE INTO t USING u ON a WHEN NOT "MATCHED" THEN INSERT DEFAULT VALUES', "MERGE INTO t 'USING' u ON a WHEN MATCHED THEN DELETE",
+    'MERGE INTO t "USING" u ON a WHEN MATCHED THEN DELETE', "MERGE INTO t USING u ON a WHEN NOT MATCHED BY 'SOURCE' THEN DELETE", 'MERGE INTO t USING u "ON" a WHEN MATCHED THEN DELETE',
+    "MERGE INTO t USING u 'x' ON a WHEN MATCHED THEN DELETE", "MERGE INTO t AS 'x' USING u ON a WHEN MATCHED THEN DELETE", 'MERGE INTO t USING u ON a WHEN MATCHED THEN UPDATE SET "a" . "b" = 1 , \'c\' = 2',
+    "SELECT a FROM t GROUP BY GROUPING 'SETS' ( a )", 'SELECT a FROM t GROUP BY GROUPING "sets" ( a )', "SELECT a FROM t GROUP BY GROUPING sets ( a )", "SELECT a FROM t FOR UPDATE 'OF' t", "SELECT a FROM t FOR UPDATE SKIP 'LOCKED'",
     "SELECT " + "( " * 98 + "a" + " )" * 98 + " FROM t", "SELECT " + "( " * 99 + "a" + " )" * 99 + " FROM t", "SELECT " + "NOT " * 99 + "a FROM t",
 ]
+
+
+# OVER ( window specification ): modelled in Model/ExprParse.v (parse_window_spec / parse_window_frame / parse_frame_bound), outside the
+# reference expressions of the theorems: hand-picked texts for tie (a) - both frame forms, every bound kind, every error branch
+WINDOW_TEXTS = [
+    "SELECT SUM ( a ) OVER ( PARTITION BY b , c ORDER BY d DESC NULLS LAST , e ROWS BETWEEN 1 PRECEDING AND CURRENT ROW ) FROM t",
+    "SELECT SUM ( a ) OVER ( ORDER BY d ROWS 5 PRECEDING ) FROM t", "SELECT SUM ( a ) OVER ( ORDER BY d range UNBOUNDED PRECEDING ) FROM t",
+    "SELECT SUM ( a ) OVER ( ROWS CURRENT ROW ) FROM t", "SELECT SUM ( a ) OVER ( RANGE 2 FOLLOWING ) x FROM t", "SELECT ROW_NUMBER ( ) OVER ( ) FROM t",
+    "SELECT SUM ( a ) OVER ( RANGE BETWEEN UNBOUNDED PRECEDING AND UNBOUNDED FOLLOWING ) x FROM t",
+    "SELECT SUM ( a ) OVER ( ROWS BETWEEN a + 1 FOLLOWING AND 2 FOLLOWING ) , b FROM t", "SELECT SUM ( a ) OVER ( ROWS BETWEEN CURRENT ROW AND 3 FOLLOWING ) FROM t",
+    "SELECT SUM ( a ) OVER ( PARTITION BY b ) + 1 , RANK ( ) OVER ( ORDER BY c ASC NULLS FIRST ) AS r FROM t ORDER BY SUM ( a ) OVER ( ORDER BY d )",
+    "SELECT SUM ( a ) OVER ( ROWS CURRENT ) FROM t", "SELECT SUM ( a ) OVER ( ROWS BETWEEN 1 PRECEDING ) FROM t", "SELECT SUM ( a ) OVER w FROM t",
+    "SELECT SUM ( a ) OVER ( PARTITION b ) FROM t", "SELECT SUM ( a ) OVER ( ORDER a ) FROM t", "SELECT SUM ( a ) OVER ( ORDER BY a ROWS 1 ) FROM t",
+    "SELECT SUM ( a ) OVER ( ROWS UNBOUNDED ) FROM t", "SELECT SUM ( a ) OVER ( ORDER BY a PARTITION BY b ) FROM t", "SELECT SUM ( a ) OVER ( PARTITION BY b", "SELECT SUM ( a ) OVER ( ORDER BY a NULLS ) FROM t",
+    "SELECT SUM ( a ) OVER ( ROWS BETWEEN 1 PRECEDING AND ) FROM t", "SELECT SUM ( a ) OVER ( ROWS 1 PRECEDING AND CURRENT ROW ) FROM t",
+]
+FIXED_TEXTS += WINDOW_TEXTS
